@@ -16,15 +16,18 @@ RULE = ("ConcurrentTestSuite and ConcurrentStreamTestSuite are run with 1..4 gen
         "are rebound to harness fakes for one case, so thread start/join, queue put/get, semaphore operations, every "
         "call on the caller's result, every make_tests step and every shouldStop read is a scheduling point; schedules "
         "are int lists drawn by Hypothesis or enumerated by DFS with <= k pre-emptions; faults: the caller's stream "
-        "result raises at event k, or make_tests raises after yielding k sub-suites. Oracle: every worker run exactly "
+        "result raises at event k, or make_tests raises after yielding k sub-suites; make_tests eager or lazy (the next "
+        "sub-suite only once the earlier ones have run), a bounded Queue blocks when full, the classic caller's result "
+        "optionally failfast, a worker flooding 600 attachment events. Oracle: every worker run exactly "
         "once in its own thread, all finished when run() returns, every emitted event delivered exactly once in the "
         "worker's order (route code + timestamp for streams, contiguous blocks for the classic suite), broken runners "
         "reported, on abort the exception propagates and started workers read shouldStop == True afterwards, no "
         "deadlock. Non-trivial: >= 2 context switches between workers, or a fault; distinct = distinct spec.")
 ASSUMPTIONS = [
     "instrumentation by rebinding testtools.testsuite.threading / Queue (vacuity guard: exit 2 if no fake thread was created)",
-    "for ConcurrentTestSuite a fault in the caller's result strikes inside a worker thread: only termination "
-    "(no deadlock, run() returns, workers finished) is asserted for such cases",
+    "for ConcurrentTestSuite a fault in the caller's result strikes inside a worker thread: termination "
+    "(no deadlock, run() returns, workers finished) is asserted for such cases, and - when the call that raised was "
+    "the outcome - that the test is closed before another one is opened",
     "aborts are injected both as Exception and as non-Exception errors (an interrupt)",
     "after an abort the harness lets the remaining workers run to completion to observe what they read",
 ]
@@ -65,6 +68,8 @@ def s_case(draw):
                            st.builds(lambda k, b: {"at": "result", "k": k, "base": b}, st.integers(0, 12), st.booleans())))
     return {"suite": suite, "workers": workers, "fault": fault, "wrap_result": draw(st.sampled_from([False, True, "own_stop"])),
             "second_run": draw(st.booleans()),
+            "lazy": draw(st.sampled_from([False, False, True])),       # make_tests yields the next sub-suite only once the earlier ones are done
+            "failfast": draw(st.sampled_from([False, False, False, True])),   # (classic) the caller's result stops at the first failure
             "schedule": draw(st.lists(st.integers(0, 3), max_size=40))}
 
 
@@ -103,6 +108,8 @@ def execute(spec, schedule=None):
 
         def __init__(self):
             self.inner = streams.Recorder() if stream else Ext()
+            if not stream and spec.get("failfast"):
+                self.inner.failfast = True
 
         def __getattr__(self, name):
             attr = getattr(self.inner, name)
@@ -126,6 +133,7 @@ def execute(spec, schedule=None):
         def __init__(self, wid, w):
             self.wid, self.w = wid, w
             self.runs = 0
+            self.finished = False
 
         def __hash__(self):
             return hash(("worker", self.wid))
@@ -134,6 +142,12 @@ def execute(spec, schedule=None):
             return self is other
 
         def run(self, result):
+            try:
+                self._run(result)
+            finally:
+                self.finished = True
+
+        def _run(self, result):
             self.runs += 1
             t = S.current_task()
             worker_log.append((self.wid, "run", t.name if t else None))
@@ -146,10 +160,17 @@ def execute(spec, schedule=None):
                 if stop:
                     return
                 if self.w["raise_after"] == i:
+                    worker_log.append((self.wid, "raised", bool(self.w.get("base"))))
                     raise (RunnerDied if self.w.get("base") else RuntimeError)("runner %d broke" % self.wid)
                 tid = "w%d.t%d" % (self.wid, i)
                 worker_log.append((self.wid, "test", tid, kind))
-                if kind == "raw":
+                if kind == "flood":
+                    # one test with hundreds of attachment chunks
+                    result.status(test_id=tid, test_status="inprogress")
+                    for j in range(FLOOD):
+                        result.status(test_id=tid, file_name="f", file_bytes=b"x", mime_type="text/plain")
+                    result.status(test_id=tid, test_status="success")
+                elif kind == "raw":
                     # a full-signature forwarder passes every keyword, timestamp=None included
                     result.status(test_id=tid, test_status="inprogress", timestamp=None)
                     result.status(test_id=tid, test_status="success")
@@ -157,6 +178,7 @@ def execute(spec, schedule=None):
                     testtools.PlaceHolder(tid, outcome=H.METHOD[kind], tags={"w%d" % self.wid},
                                           timestamps=(H.ts(100 * self.wid + 2 * i), H.ts(100 * self.wid + 2 * i + 1))).run(result)
             if self.w["raise_after"] is not None and self.w["raise_after"] >= len(self.w["tests"]):
+                worker_log.append((self.wid, "raised", bool(self.w.get("base"))))
                 raise (RunnerDied if self.w.get("base") else RuntimeError)("runner %d broke" % self.wid)
             sched.yield_point("worker.shouldStop")
             aborted_before = state["aborted"]
@@ -166,7 +188,11 @@ def execute(spec, schedule=None):
     def make_tests(*a):
         f = spec["fault"]
         for i, w in enumerate(workers):
-            sched.yield_point("make_tests.next")
+            if spec.get("lazy"):
+                # an iterator that hands out the next sub-suite only when the earlier ones have run
+                sched.yield_point("make_tests.next", pred=lambda: all(x.finished for x in workers[:i]))
+            else:
+                sched.yield_point("make_tests.next")
             if f and f["at"] == "make_tests" and f["k"] == i:
                 raise (Interrupt if f.get("base") else Fault)("make_tests raised after %d sub-suites" % i)
             yield (w, "r%d" % i) if stream else w
@@ -240,7 +266,7 @@ def execute(spec, schedule=None):
     import queue as real_queue
     saved_glob = (real_threading.Thread, real_threading.Semaphore, real_queue.Queue)
     ts.threading = fake_threading
-    ts.Queue = lambda *a, **kw: S.FakeQueue(sched)
+    ts.Queue = lambda maxsize=0: S.FakeQueue(sched, maxsize)
     try:
         sched.spawn(main, "main")
         try:
@@ -290,7 +316,7 @@ def execute(spec, schedule=None):
     if state["run_exc"] is None and not vs and not classic_result_fault:
         for w in workers:
             ran = [e for e in worker_log if e[0] == w.wid and e[1] == "test"]
-            broke = w.w["raise_after"] is not None and not w.w.get("base") and not any(e[0] == w.wid and e[1] == "shouldStop" and e[2] for e in worker_log)
+            broke = any(e[0] == w.wid and e[1] == "raised" and not e[2] for e in worker_log)
             if stream:
                 code = "r%d" % w.wid
                 mine = [s for s in caller.inner.statuses() if s["route_code"] == code]
@@ -299,7 +325,11 @@ def execute(spec, schedule=None):
                 got = [(s["test_id"], s["test_status"]) for s in mine if s["file_name"] is None]
                 want = []
                 for e in ran:
-                    want += [(e[2], "inprogress"), (e[2], "success" if e[3] == "raw" else H_STATUS[e[3]])]
+                    want += [(e[2], "inprogress"), (e[2], "success" if e[3] in ("raw", "flood") else H_STATUS[e[3]])]
+                    if e[3] == "flood":
+                        nchunks = sum(1 for s in mine if s["test_id"] == e[2] and s["file_name"] == "f")
+                        if nchunks != FLOOD:
+                            vs.append(V("delivery", "stream-attachments", "worker %d sent %d attachment chunks, %d arrived" % (w.wid, FLOOD, nchunks)))
                 broken = [g for g in got if g[0] and g[0].startswith("broken-runner")]
                 got = [g for g in got if not (g[0] and g[0].startswith("broken-runner"))]
                 if got != want:
@@ -346,13 +376,27 @@ def execute(spec, schedule=None):
                 elif open_ != e[1].id():
                     vs.append(V("one-at-a-time", "outcome-outside", "outcome for %s while %r was open" % (e[1].id(), open_)))
                     break
-            nbroke = sum(1 for w in workers if w.w["raise_after"] is not None and not w.w.get("base") and not any(
-                e[0] == w.wid and e[1] == "shouldStop" and e[2] for e in worker_log))
+            nbroke = sum(1 for e in worker_log if e[1] == "raised" and not e[2])
             got_broken = sum(1 for e in evs if e[0] == "addError" and e[1].id().startswith("broken-runner"))
             if got_broken != nbroke:
                 vs.append(V("broken-runner", "classic-count", "%d workers raised from run(), %d broken-runner errors reported" % (nbroke, got_broken)))
             if spec["wrap_result"] and sorted(wrapped) != list(range(len(workers))):
                 vs.append(V("wrap_result", "calls", "wrap_result called with %r" % wrapped))
+    if classic_result_fault and not any(v.clause == "deadlock" for v in vs):
+        # the caller's result raised inside a worker's block: if that was the outcome call, the test must still be
+        # closed before any other test is opened (one test at a time)
+        hit = [e for e in caller_log if e[4] == fault["k"]]
+        if hit and hit[0][1] in OUTCOMES:
+            open_ = None
+            for tid_, name, a, kw, n in caller_log:
+                if name == "startTest":
+                    if open_ is not None:
+                        vs.append(V("one-at-a-time", "left-open-after-result-raised", "the caller's result raised in %s(%s); startTest(%s) arrived while %s was still open" % (
+                            hit[0][1], hit[0][2][0].id(), a[0].id(), open_)))
+                        break
+                    open_ = a[0].id()
+                elif name == "stopTest":
+                    open_ = None
     if second["done"] and not any(v.clause == "deadlock" for v in vs):
         want2 = [("w90.t0", "inprogress", "again"), ("w90.t0", "success", "again"), ("w90.t1", "inprogress", "again"), ("w90.t1", "fail", "again")]
         if second["exc"] is not None or second["events"] != want2:
@@ -362,13 +406,15 @@ def execute(spec, schedule=None):
     return vs, stats, sched.decisions
 
 
+FLOOD = 600
 H_STATUS = {"success": "success", "error": "fail", "failure": "fail", "skip": "skip", "xfail": "xfail", "uxsuccess": "uxsuccess"}
 
 
 def run_case(spec):
     vs, stats, _ = execute(spec)
     nt = stats["switches"] >= 2 or stats["fault_fired"]
-    return Case(vs, nt, ["suite=" + spec["suite"], "workers=%d" % len(spec["workers"]), "fault=" + (spec["fault"]["at"] if spec["fault"] else "none"),
+    return Case(vs, nt, ["suite=" + spec["suite"], "workers=%d" % len(spec["workers"]), "lazy" if spec.get("lazy") else "eager",
+                         "failfast" if spec.get("failfast") and spec["suite"] == "classic" else "", "fault=" + (spec["fault"]["at"] if spec["fault"] else "none"),
                          "fired" if stats["fault_fired"] else "", "switches=%d" % min(stats["switches"], 9)], stats)
 
 
@@ -399,10 +445,21 @@ def custom_dfs(ctx):
     return out
 
 
+def _enum_flood():
+    """A worker that emits far more events than any sensible queue bound before the next sub-suite exists."""
+    for lazy in (True, False):
+        for schedule in ([], [1] * 30, [0, 1, 2, 1, 0, 2] * 5):
+            for ws in ([["flood"], ["success"]], [["flood", "failure"], ["flood"], []]):
+                yield {"suite": "stream", "workers": [{"tests": t, "raise_after": None, "base": False} for t in ws], "fault": None,
+                       "wrap_result": False, "second_run": False, "lazy": lazy, "failfast": False, "schedule": schedule}
+
+
 def subchecks(tier):
     q = tier == "quick"
     return [
         Sub("random_schedules", run_case, s_case(), 3000 if q else 40000),
+        Sub("event_flood", run_case, enum=_enum_flood, enum_complete=False,
+            note="stream suite, one or two workers emitting 600 attachment events per test, eager and lazy make_tests, 3 schedules"),
         Sub("bounded_preemption_dfs", run_case, custom=custom_dfs,
             note="all schedules with <= k pre-emptions for 2-worker configurations (k=1 quick, k=2 thorough)"),
     ]
